@@ -2,7 +2,8 @@
 //! script = [flags; error_rate f64 bits; latency_rate f64 bits; min_latency; max_latency; seed; tail_ms; n;
 //!           (gap_ms, ik, inner_val)*n]
 //!          (anything after the 3n request fields is the model's oracle and is ignored here)
-//!   flags  bit 0: 0 NoErrorInjection, 1 CustomErrorFn; bits 1-3: builder route (see `build`)
+//!   flags  bit 0: 0 NoErrorInjection, 1 CustomErrorFn; bits 1-4: builder route (see `build`; routes 8-15 call
+//!          error_fn() more than once: the error function is replaced, the configured rate must survive)
 //!   bounds v < 2^64: Duration::from_micros(v); v >= 2^64: v - 2^64 nanoseconds (Duration::new(secs, nanos))
 //!   ik     bit 0: inner outcome 0 Ok / 1 Err; bits 1-2: first poll of the future: 0 right after call(),
 //!          1 deferred (polled right after the next request that is polled at once, most recent deferred
@@ -12,8 +13,13 @@
 //! (poll_ready + call) on A, then on B, `gap_i` virtual ms after request i-1; nothing waits for a
 //! previous request, so requests overlap while an injected latency sleeps. The draw log of the
 //! verif hook is taken around every first poll.
+//! A third instance C, built later (at another virtual instant), is then driven alone with the same requests in
+//! the same order and the same first-poll discipline, but with other gaps (gap_i + i mod 3), the opposite inner
+//! outcomes and no tail: its decisions (events error / latency / pass and the reported delay of every request) must
+//! equal A's — the decisions may depend on the seed and the order of requests only.
 //! trace = [repro; per request 15 ints; n_draws; draw bits...]  (records and draws of instance A)
-//!   repro bit 0: A and B produced identical outcomes (record fields 4..15); bit 1: identical draw logs
+//!   repro bit 0: A and B produced identical outcomes (record fields 4..15); bit 1: identical draw logs;
+//!         bit 2: C made the same decisions as A (record fields 4..8) and logged the same draws
 //!   (A uses one service handle for all requests, B a fresh clone of its handle per request)
 //!   request record = [n_log; k0; k1; k2 (logged kinds, -1 padding); listener events error, latency, pass
 //!                     (counts at the first poll); reported delay ms (-1); inner_called (count); t_call;
@@ -64,9 +70,9 @@ fn dur(v: i128) -> Duration {
     }
 }
 
-fn build(s: &[i128], t0: tokio::time::Instant) -> Inst {
+fn build(s: &[i128], t0: tokio::time::Instant, flip_inner: bool) -> Inst {
     let inj = zn(s, 0) & 1;
-    let route = (zn(s, 0) >> 1) & 7;
+    let route = (zn(s, 0) >> 1) & 15;
     let er = f64::from_bits(zn(s, 1) as u64);
     let lr = f64::from_bits(zn(s, 2) as u64);
     let (mn, mx, seed) = (dur(zn(s, 3)), dur(zn(s, 4)), zn(s, 5) as u64);
@@ -74,7 +80,11 @@ fn build(s: &[i128], t0: tokio::time::Instant) -> Inst {
     let kinds: Vec<(i128, i128, u64)> = (0..n)
         .map(|i| {
             let ik = zn(s, 8 + 3 * i + 1);
-            (ik & 1, zn(s, 8 + 3 * i + 2), (ik >> 3).max(0) as u64)
+            if flip_inner {
+                ((ik & 1) ^ 1, zn(s, 8 + 3 * i + 2) + 1, ((ik >> 3).max(0) as u64 + 2) % 5)
+            } else {
+                (ik & 1, zn(s, 8 + 3 * i + 2), (ik >> 3).max(0) as u64)
+            }
         })
         .collect();
     let logs = Arc::new(Logs::default());
@@ -106,13 +116,14 @@ fn build(s: &[i128], t0: tokio::time::Instant) -> Inst {
         }};
     }
     let f = |r: &i128| *r + 7000;
+    let decoy = |r: &i128| *r + 9000; // an error function that is replaced before build()
     let b0 = ChaosLayer::builder();
     let svc: Svc = if inj == 0 {
         // NoErrorInjection: only the order of the setters can vary (error_rate() without error_fn()
         // yields a builder that cannot be built)
         let layer = match route {
-            0 | 2 | 4 | 6 => obs!(lat!(b0).seed(seed)).build(),
-            1 | 5 => lat_rev!(obs!(b0.seed(seed))).build(),
+            0 | 2 | 4 | 6 | 8 | 10 | 12 | 14 => obs!(lat!(b0).seed(seed)).build(),
+            1 | 5 | 9 | 13 => lat_rev!(obs!(b0.seed(seed))).build(),
             _ => obs!(lat!(b0.seed(seed ^ 1).latency_rate(0.5)).seed(seed)).build(), // overwritten values
         };
         tower::util::BoxCloneService::new(layer.layer(inner))
@@ -132,7 +143,19 @@ fn build(s: &[i128], t0: tokio::time::Instant) -> Inst {
             5 => obs!(lat!(b0.error_rate(0.5).error_fn(f).error_rate(er)).seed(seed)).build(),
             // values overwritten after the route switch
             6 => obs!(lat!(b0.seed(seed ^ 1).latency_rate(0.5).error_fn(f).seed(seed)).error_rate(er)).build(),
-            _ => lat_rev!(obs!(b0.latency_rate(0.25).error_rate(er).seed(seed))).error_fn(f).build(),
+            7 => lat_rev!(obs!(b0.latency_rate(0.25).error_rate(er).seed(seed))).error_fn(f).build(),
+            // ---- the error function replaced (fix 7904406: error_fn keeps the configured rate) ----
+            8 => obs!(lat!(b0.error_rate(er).error_fn(decoy).error_fn(f)).seed(seed)).build(),
+            9 => obs!(lat!(b0.error_fn(decoy).error_rate(er).name("x").error_fn(f)).seed(seed)).build(),
+            // replaced before the rate is given
+            10 => obs!(lat!(b0.error_fn(decoy).error_fn(f).error_rate(er)).seed(seed)).build(),
+            // rate overwritten between the replacements, the function replaced twice
+            11 => obs!(lat!(b0.error_rate(0.5).error_fn(decoy).error_rate(er).error_fn(decoy).error_fn(f)).seed(seed)).build(),
+            12 => obs!(lat!(b0.error_rate(0.25).error_fn(decoy).error_fn(f).error_rate(er)).seed(seed)).build(),
+            13 => obs!(lat!(b0.error_fn(decoy).error_rate(er).error_fn(decoy).error_fn(f)).seed(seed)).build(),
+            // the other setters before the route switch / between the replacements
+            14 => obs!(lat!(b0.seed(seed)).error_rate(er).error_fn(decoy)).error_fn(f).build(),
+            _ => lat_rev!(obs!(b0.error_fn(decoy).error_rate(er)).seed(seed)).error_fn(f).build(),
         };
         tower::util::BoxCloneService::new(layer.layer(inner))
     };
@@ -262,8 +285,8 @@ fn run(s: &[i128]) -> Vec<i128> {
     rt.block_on(async move {
         let t0 = tokio::time::Instant::now();
         let _ = take_draws();
-        let mut a = build(s, t0);
-        let mut b = build(s, t0);
+        let mut a = build(s, t0, false);
+        let mut b = build(s, t0, false);
         b.via_clone = true;
         for i in 0..n {
             let gap = zn(s, 8 + 3 * i).max(0) as u64;
@@ -295,7 +318,26 @@ fn run(s: &[i128]) -> Vec<i128> {
         let rb = b.finish(n);
         let same_outcomes = ra.iter().zip(rb.iter()).all(|(x, y)| x[4..] == y[4..]);
         let same_draws = a.draws == b.draws && ra.iter().zip(rb.iter()).all(|(x, y)| x[..4] == y[..4]);
-        let mut tr = vec![(same_outcomes as i128) + 2 * (same_draws as i128)];
+        // third instance: other gaps, other inner outcomes, built at another instant, same order and poll discipline
+        drop(b);
+        advance_ms(3).await;
+        let mut c = build(s, t0, true);
+        for i in 0..n {
+            let gap = zn(s, 8 + 3 * i).max(0) as u64 + (i as u64 % 3);
+            let mode = (zn(s, 8 + 3 * i + 1) >> 1) & 3;
+            for _ in 0..gap.min(60) {
+                advance_ms(1).await;
+                c.pump(t0);
+            }
+            c.create(i, t0).await;
+            c.after_create(i, mode, t0);
+            settle().await;
+            c.pump(t0);
+        }
+        c.flush_deferred(t0);
+        let same_decisions = c.draws == a.draws
+            && ra.iter().zip(c.recs.iter()).all(|(x, y)| y.len() >= 8 && x[..8] == y[..8]);
+        let mut tr = vec![(same_outcomes as i128) + 2 * (same_draws as i128) + 4 * (same_decisions as i128)];
         for r in ra {
             tr.extend(r);
         }
